@@ -16,8 +16,16 @@ func c01Run(w *W) {
 	n := simrt.Choose(13)
 	workers := 1 + simrt.Choose(4)
 	buf := simrt.Choose(4)
+	// each output is drained by its own task, either with ReadOne or with the
+	// usual Next()/Value() loop in which other tasks run between the two calls
+	nextValue := simrt.Choose(2) == 1
+	if kind == pkSharedChannel {
+		// there one iterator is shared by all consumers, which is what ReadOne
+		// is for; Next() and Value() of a shared iterator are two calls
+		nextValue = false
+	}
 	p := buildPipe(w.Ctx, kind, n, workers, buf)
-	w.Config("%s n=%d w=%d buf=%d", p.name, n, workers, buf)
+	w.Config("%s n=%d w=%d buf=%d nextValue=%v", p.name, n, workers, buf, nextValue)
 	w.State(fmt.Sprintf("%s n=%d w=%d", p.name, min(n, 3), workers))
 	for _, f := range p.feeders {
 		simrt.Spawn("feeder", f)
@@ -40,6 +48,16 @@ func c01Run(w *W) {
 		recs = append(recs, r)
 		simrt.Spawn(fmt.Sprintf("consumer%d:%s", i, p.name), func() {
 			r.state = 1
+			if nextValue {
+				for it.Next(w.Ctx) {
+					simrt.Yield()
+					r.vals = append(r.vals, it.Value())
+					simrt.Yield()
+				}
+				r.err = it.Close()
+				r.state = 2
+				return
+			}
 			for {
 				v, err := it.ReadOne(w.Ctx)
 				if err != nil {
